@@ -163,6 +163,7 @@ func (x *Exec) Run() {
 		<-x.main
 	}
 	x.running = false
+	Cur = nil
 }
 
 // Begin/End bracket a single-threaded execution in which only pool answers are explored.
